@@ -26,6 +26,11 @@ def check(prog, rep):
     ddl_facts(prog, rep)
     # a rollback of the shared open transaction undoes buffered writes of *other* buckets
     check_no_rollback(prog, rep)
+    # two buckets' containers share no object: what a write method stores is not the caller's object (which the caller may
+    # hand to an operation on another bucket, whose id assignment / edits would then show in this bucket too)
+    from ..rules_own import own_rules
+
+    own_rules(prog, rep, methods=["insert_one", "insert_many", "replace", "replace_last"])
 
 
 SQ = "aw_datastore/storages/sqlite.py"
@@ -33,6 +38,8 @@ PW = "aw_datastore/storages/peewee.py"
 ME = "aw_datastore/storages/memory.py"
 DS = "aw_datastore/datastore.py"
 VARIANTS = [
+    ("B memory replace stores the caller's event object", ME, "            event = copy.deepcopy(event)\n            event.id = event_id\n", "            event.id = event_id\n", "OWN-IN"),
+    ("B peewee upserts of a batch applied with bulk_update (by id alone)", PW, "        for e in events_updates:\n            self.insert_one(bucket_id, e)\n", "        if events_updates:\n            EventModel.bulk_update([EventModel.from_event(self.bucket_keys[bucket_id], e) for e in events_updates], fields=[EventModel.timestamp, EventModel.duration, EventModel.datastr], batch_size=100)\n", "SCOPE"),
     ("B sqlite replace unscoped (original defect)", SQ, "                     WHERE id = ?\n                       AND bucketrow = (SELECT rowid FROM buckets WHERE id = ?)\"\"\"\n        self.conn.execute(\n            query, [bucket_id, starttime, endtime, datastr, event_id, bucket_id]\n        )", "                     WHERE id = ?\"\"\"\n        self.conn.execute(query, [bucket_id, starttime, endtime, datastr, event_id])", "SCOPE"),
     ("B sqlite replace_last picks the newest event of any bucket", SQ, "                        SELECT id FROM events\n                        WHERE bucketrow = (SELECT rowid FROM buckets WHERE id = ?)\n                        ORDER BY starttime DESC, id DESC LIMIT 1)\"\"\"\n        self.conn.execute(query, [starttime, endtime, datastr, bucket_id])", "                        SELECT id FROM events\n                        ORDER BY starttime DESC, id DESC LIMIT 1)\"\"\"\n        self.conn.execute(query, [starttime, endtime, datastr])", "SCOPE"),
     ("B sqlite delete by id only", SQ, "\"WHERE id = ? AND bucketrow = (SELECT b.rowid FROM buckets b WHERE b.id = ?)\"\n        )\n        cursor = self.conn.execute(query, [event_id, bucket_id])", "\"WHERE id = ?\"\n        )\n        cursor = self.conn.execute(query, [event_id])", "SCOPE"),
